@@ -3,7 +3,7 @@ PROP = dict(
         engine="revision", harness="revision", driver="drv_revision",
         # after the proposed repair of rhp/contracts.go is applied, evaluate the repaired model variant:
         #   driver_args=["fixed"]   (or run with VERIF_REVISION_VARIANT=fixed)
-        driver_args=(['fixed'] if __import__('os').environ.get('VERIF_REVISION_VARIANT') == 'fixed' else []),
+        driver_args=([] if __import__('os').environ.get('VERIF_REVISION_VARIANT') == 'unfixed' else ['fixed']),   # /repo carries the fix: commits 44e5446..839f27b
         props=["Hostd.Props.C07"],
         case_mode=True,
         # monitors / fields of the rhp/contracts.go functions, plus the clearing-revision clauses observed on the RHP3 renew handler
